@@ -31,9 +31,9 @@ def run(pid, tier):
             if obs:
                 rp = lib.write_replay(pid, f"{tag}-prep-{obs[0]['id']}", dict(
                     property=pid, engine="rxtriage", tier=tier, seed=lib.seed(), kind="preparation", case=obs[0],
-                    violated=dict(errors=obs[0]["what"]), signature=dict(kind=obs[0]["what"])))
-                verdict.violation((obs[0]["what"],), rp,
-                                  f"{tag}: {len(obs)} cases: a response longer than the slot's buffer was accepted ({obs[0]['id']})")
+                    violated=dict(errors=obs[0]["what"]), signature=dict(kind=obs[0]["what"].split(":")[0])))
+                verdict.violation((obs[0]["what"].split(":")[0],), rp,
+                                  f"{tag}: {len(obs)} cases: while the slot states were prepared with a plain and an oversize reply: {obs[0]['what'][:200]} ({obs[0]['id']})")
         n = sum(1 for _ in open(trace))
         if n == 0:
             return
